@@ -238,9 +238,28 @@ structure KeyOpts where
   permitopen : List (Bytes × Option Nat) := []
   deriving DecidableEq, Repr
 
-/-- options of the OpenSSH user certificate used to authenticate (`_cert_options`) -/
+/-- options of the OpenSSH user certificate used to authenticate (`_cert_options`, the decoded critical options
+    and extensions; an extension is stored only when granted): whether `permit-port-forwarding` is among
+    them, and whether anything else is (other permits, force-command, source-address).  A certificate that
+    grants nothing and restricts nothing decodes to the EMPTY dictionary: both fields false. -/
 structure CertOpts where
   permitPortForwarding : Bool
+  other : Bool := true
+  deriving DecidableEq, Repr
+
+/-- the dictionary is non-empty (its Python truth value) -/
+def CertOpts.truthy (c : CertOpts) : Bool := c.permitPortForwarding || c.other
+
+/-- how the two permission lookups read the options, regenerated from their source (`Gen/C20.lean`):
+      check_key_permission:          `return not self._key_options.get('no-' + p, <keyDefault>)`
+      check_certificate_permission:  `if <guard on self._cert_options>: return self._cert_options.get('permit-' + p,
+                                      <certDefault>)  else: return <certAbsent>` -/
+structure Lookup where
+  keyRevokes : Bool      -- the key lookup is negated (`not ...get(...)`): the `no-` option revokes
+  keyDefault : Bool      -- default of the key lookup
+  certPresence : Bool    -- the certificate guard is the presence test `is not None` (false: a truth-value test)
+  certDefault : Bool     -- default of the certificate lookup
+  certAbsent : Bool      -- answer when the guard does not hold
   deriving DecidableEq, Repr
 
 /-- destination of a direct open / address of a listen request (UNIX: the path, port 0) -/
@@ -257,14 +276,19 @@ structure Checks where
   permitopen : Bool
   deriving DecidableEq, Repr
 
-/-- `check_key_permission('port-forwarding')`: `not self._key_options.get('no-port-forwarding', False)` -/
-def keyPermits (k : KeyOpts) : Bool := !k.noPortForwarding
+/-- `check_key_permission('port-forwarding')` as the source reads -/
+def keyPermits (l : Lookup) (k : KeyOpts) : Bool :=
+  let got := if k.noPortForwarding then true else l.keyDefault      -- `.get('no-port-forwarding', default)`
+  if l.keyRevokes then !got else got
 
-/-- `check_certificate_permission('port-forwarding')`: no certificate -> True, else the
-    `permit-port-forwarding` extension (default False) -/
-def certPermits : Option CertOpts → Bool
-  | none => true
-  | some c => c.permitPortForwarding
+/-- `check_certificate_permission('port-forwarding')` as the source reads: the guard decides whether the
+    certificate's options are consulted at all -/
+def certPermits (l : Lookup) : Option CertOpts → Bool
+  | none => l.certAbsent                                              -- `_cert_options is None`
+  | some c =>
+    if l.certPresence || c.truthy then
+      (if c.permitPortForwarding then true else l.certDefault)        -- `.get('permit-port-forwarding', default)`
+    else l.certAbsent
 
 /-- the permitopen test of `_process_direct_tcpip_open`:
     `permitted_opens and (host, port) not in permitted_opens and (host, None) not in permitted_opens` denies -/
@@ -272,8 +296,8 @@ def permitopenAllows (k : KeyOpts) (d : Dest) : Bool :=
   k.permitopen.isEmpty || k.permitopen.contains (d.host, some d.port) || k.permitopen.contains (d.host, none)
 
 /-- the credential's restrictions permit this request -/
-def permittedBy (ch : Checks) (k : KeyOpts) (c : Option CertOpts) (d : Dest) : Bool :=
-  (!ch.key || keyPermits k) && (!ch.cert || certPermits c) && (!ch.permitopen || permitopenAllows k d)
+def permittedBy (l : Lookup) (ch : Checks) (k : KeyOpts) (c : Option CertOpts) (d : Dest) : Bool :=
+  (!ch.key || keyPermits l k) && (!ch.cert || certPermits l c) && (!ch.permitopen || permitopenAllows k d)
 
 inductive Verdict where
   | created            -- channel opened / listener created and registered
@@ -283,9 +307,9 @@ inductive Verdict where
 
 /-- decision and whether the application callback was consulted at all
     (`connection_requested`, `server_requested`, `unix_connection_requested`, `unix_server_requested`) -/
-def decideReq (ch : Checks) (k : KeyOpts) (c : Option CertOpts) (d : Dest) (appSaysYes : Bool) :
+def decideReq (l : Lookup) (ch : Checks) (k : KeyOpts) (c : Option CertOpts) (d : Dest) (appSaysYes : Bool) :
     Verdict × Bool :=
-  if !permittedBy ch k c d then (.prohibited, false)
+  if !permittedBy l ch k c d then (.prohibited, false)
   else if appSaysYes then (.created, true) else (.refusedByApp, true)
 
 /-! `permitopen="host:port"` value parsing (auth_keys.py `_add_permitopen`):
